@@ -371,7 +371,7 @@ func init() {
 	)
 	core.Register(&core.Monitor{
 		ID: "C20", Level: "exploration", Plan: plan, Run: run,
-		Rule: "per registry type: a wire-originated record against its copy and variants {identical, TTL, owner case, embedded-name case, one RDATA field re-drawn (x3), class}; oracle = model key (type, class, lower-cased owner wire, RDATA wire with embedded names lower-cased); " +
+		Rule: "per registry type: a wire-originated record against its copy and variants {identical, TTL, owner case, embedded-name case, one RDATA field re-drawn (x3), class, APL IPv4 item vs the same address as IPv4-mapped IPv6 item}; oracle = model key (type, class, lower-cased owner wire, RDATA wire with embedded names lower-cased); " +
 			"symmetry, reflexivity, transitivity over the equal variants; Dedup against a stable first-occurrence filter keyed by text minus TTL with lower-cased owner, minimum TTL; non-trivial = distinct (record, variant) pair / list with duplicates",
 		MinObserved: []string{"triples", "dedup_lists_with_duplicates"},
 	})
